@@ -312,6 +312,14 @@ def run_input(inp, ctx, applied=()):
     again = (c.objects, c.properties, c.bools)
     ctx.check(again == want, site + '/representation-after-caller-edit', case,
               lambda: f'after the caller modified the list returned by .bools the context shows {again!r}, want {want!r}')
+    # ... and so do the arguments the context was built from: the caller reuses / edits its own lists afterwards
+    if inp['kind'] == 'triple':
+        ctx.call(site + '/wreck-arguments', case, lambda: [lib.wreck(a) for a in args])
+    else:
+        ctx.call(site + '/wreck-arguments', case, lib.wreck, d)
+    again = (c.objects, c.properties, c.bools)
+    ctx.check(again == want, site + '/representation-after-argument-edit', case,
+              lambda: f'after the caller modified the arguments it had passed the context shows {again!r}, want {want!r}')
 
 
 def base_triple(case, cells='bool', rowtype='tuple'):
